@@ -19,8 +19,10 @@ except ImportError:
         """Fallback placeholder for Python < 3.11 where ``ast.TryStar`` is absent."""
 
 
+import io
 import logging
 import re
+import tokenize
 from abc import abstractmethod
 from dataclasses import dataclass
 from types import CodeType
@@ -176,13 +178,19 @@ class ModuleAstInfo:
         Returns:
             The iterable of lines that contain the pattern.
         """
-        return (
-            lineno
-            # Only these are line boundaries for the compiler; str.splitlines() also
-            # splits at form feeds and other separators and would shift the numbers.
-            for lineno, line in enumerate(re.split(r"\r\n|\r|\n", source_code), start=1)
-            if pattern.search(line) is not None
-        )
+        # Only comments count (the text of a marker can occur in a string literal), and
+        # the tokenizer numbers the lines like the compiler: str.splitlines() would also
+        # split at form feeds and other separators.
+        try:
+            return [
+                token.start[0]
+                for token in tokenize.generate_tokens(
+                    io.StringIO(source_code, newline=None).readline
+                )
+                if token.type == tokenize.COMMENT and pattern.search(token.string) is not None
+            ]
+        except (tokenize.TokenError, SyntaxError):
+            return []
 
     @classmethod
     def _get_scope_names(
